@@ -147,6 +147,66 @@ def read_pieces(rep, path, spec):
     return pieces
 
 
+def make_frame12(spec):
+    """the frame of a dataset spec: geometry columns ga, gb + payload v; optionally a leading block of
+    rows without coordinates and a shuffled (non-monotonic) named index"""
+    import random
+    import pandas as pd
+    rng = random.Random(spec['seed'])
+    k1, k2 = spec['kinds']
+    n = spec['nrows']
+    df, _ = U.make_frame(rng, n, [('ga', k1, spec['subtypes'][0]), ('gb', k2, spec['subtypes'][1])],
+                         index_kind='range', derive_steps=spec.get('derive', 0), payload=('v',))
+    df = df[['ga', 'v', 'gb']] if spec.get('order', 0) == 0 else df[['v', 'gb', 'ga']]
+    df['v'] = df['v'] + spec.get('voffset', 0)
+    if spec.get('missing_head'):
+        # a leading block of rows without any coordinate, so that whole partitions have a NaN extent
+        h = spec['missing_head']
+        for c in ('ga', 'gb'):
+            arr = df[c].array
+            idx = np.array([-1] * min(h, n) + list(range(min(h, n), n)), dtype='int64')
+            df[c] = arr.take(idx, allow_fill=True)
+    if spec.get('index') == 'shuffled':
+        # a non-monotonic index: a one-piece result must keep the stored row order
+        vals = list(range(500, 500 + n))
+        rng.shuffle(vals)
+        if n > 1 and vals == sorted(vals):
+            vals.reverse()
+        df.index = pd.Index(vals, name='k')
+    return df
+
+
+def build_renamed(rep, sc, spec):
+    """three-step history on ONE frame object: to_parquet -> in-place `ddf.columns = [...]` that lets
+    a geometry column take over the name another geometry column had -> to_parquet again.  The second
+    dataset must record, for every column, the extents of the rows stored under that name."""
+    import dask.dataframe as dd
+    base = spec['renamed_from']
+    df = make_frame12(base)
+    ddf = dd.from_pandas(df, npartitions=base['npartitions'])
+    p1 = os.path.join(sc.dir, 'ren_first')
+    ddf.to_parquet(p1, compression=base.get('compression', 'snappy'))
+    if spec.get('touch_bounds'):
+        _ = ddf['ga'].partition_bounds, ddf.geometry.partition_bounds      # public reads in between
+    old = list(ddf.columns)
+    mode = spec.get('mode', 'swap')
+    ren = {'swap': {'ga': 'gb', 'gb': 'ga'}, 'shift': {'ga': 'gb', 'gb': 'gc'}}[mode]
+    ddf.columns = [ren.get(c, c) for c in old]                              # same object, renamed in place
+    path = os.path.join(sc.dir, spec.get('dirname') or 'ren_second')
+    ddf.to_parquet(path, compression=base.get('compression', 'snappy'))
+    pieces = read_pieces(rep, path, spec)
+    if pieces is None:
+        return None
+    geom = [c for c in ddf.columns if c in ('ga', 'gb', 'gc')]
+    rep.count(f'renamed:{mode}')
+    p1pieces = read_pieces(rep, p1, spec)
+    if p1pieces and any(_tb(a[c]) != _tb(b[c]) for a, b in zip(p1pieces, pieces) for c in ('gb',)):
+        rep.nontrivial(('renamed', json.dumps(spec, sort_keys=True, default=str)))
+    return {'path': path, 'pieces': pieces, 'geom': geom, 'frame': None, 'spec': spec, 'returned': None,
+            'first': {'path': p1, 'pieces': p1pieces, 'geom': ['ga', 'gb'] if old.index('ga') < old.index('gb')
+                      else ['gb', 'ga'], 'frame': None, 'spec': {**spec, 'writer': 'renamed-first'}, 'returned': None}}
+
+
 def build_filtered(rep, sc, spec):
     """three-step history: a frame that already carries cached partition bounds (read back with
     read_parquet_dask, or the frame pack_partitions_to_parquet returned) -> boolean-mask row filter
@@ -203,21 +263,10 @@ def build_dataset(rep, sc, spec, pk=None):
     from spatialpandas.io import read_parquet
     if spec.get('filtered_from'):
         return build_filtered(rep, sc, spec)
-    rng = random.Random(spec['seed'])
-    k1, k2 = spec['kinds']
-    n = spec['nrows']
-    df, _ = U.make_frame(rng, n, [('ga', k1, spec['subtypes'][0]), ('gb', k2, spec['subtypes'][1])],
-                         index_kind='range', derive_steps=spec.get('derive', 0), payload=('v',))
-    df = df[['ga', 'v', 'gb']] if spec.get('order', 0) == 0 else df[['v', 'gb', 'ga']]
-    df['v'] = df['v'] + spec.get('voffset', 0)
-    if spec.get('missing_head'):
-        # a leading block of rows without any coordinate, so that whole partitions have a NaN extent
-        h = spec['missing_head']
-        for c in ('ga', 'gb'):
-            arr = df[c].array
-            idx = np.array([-1] * min(h, n) + list(range(min(h, n), n)), dtype='int64')
-            df[c] = arr.take(idx, allow_fill=True)
-    ddf = dd.from_pandas(df, npartitions=spec['npartitions'])
+    if spec.get('renamed_from'):
+        return build_renamed(rep, sc, spec)
+    df = make_frame12(spec)
+    ddf = dd.from_pandas(df, npartitions=spec['npartitions'], sort=spec.get('index') != 'shuffled')
     path = os.path.join(sc.dir, spec['dirname']) if spec.get('dirname') else sc.new('ds' + spec.get('tag', ''))
     returned = None
     if spec['writer'] == 'to_parquet':
@@ -570,6 +619,7 @@ def dataset_specs(rep, tier):
                               'seed': rng.randrange(10 ** 9), 'order': rng.randint(0, 1),
                               'derive': rng.randint(0, 1),
                               'missing_head': rng.choice([0, 0, 3, 7]),
+                              'index': 'shuffled' if writer == 'to_parquet' and k % 2 == 0 else 'range',
                               'compression': rng.choice(['snappy', 'gzip', None])})
     return specs
 
@@ -612,7 +662,8 @@ def run(rep):
     rep.rule = ('[also: lists of 2-3 datasets given in an order that is not the sorted path order (b_, a_, a nested '
                 'directory; >= 2 partitions each, one >= 11); datasets written from a frame carrying cached bounds '
                 '(read back / returned by pack) after a boolean-mask filter that empties some partitions and shrinks '
-                'others] datasets of 2 geometry columns (kind pairs over all 7 kinds, 5 subtypes, missing / empty '
+                'others; one frame object written, its geometry columns renamed in place (swap / shift of names), written again; '
+                'half of the to_parquet datasets carry a shuffled (non-monotonic) index] datasets of 2 geometry columns (kind pairs over all 7 kinds, 5 subtypes, missing / empty '
                 'elements, optional leading block of missing rows giving NaN-extent partitions) written by '
                 'DaskGeoDataFrame.to_parquet and pack_partitions_to_parquet with 1..16 partitions; read singly, '
                 'as a list and as a glob of two datasets, geometry= None / other column; boxes touching a recorded '
@@ -695,6 +746,18 @@ def run(rep):
                         check_read(rep, [dsf], 'single', other,
                                    _sample(rep.rng, boxes_for(rep.rng, extents(dsf, other), nbox), 2 if quick else 4),
                                    *acc)
+                # state across calls on one frame object: write -> in-place column rename -> write again
+                if si % 3 == 1:
+                    rspec = {'writer': 'renamed', 'renamed_from': {**spec, 'writer': 'to_parquet', 'index': 'range'},
+                             'seed': spec['seed'] + 11, 'mode': 'swap' if si % 2 else 'shift',
+                             'touch_bounds': bool(si % 4 == 1)}
+                    dsr = build_dataset(rep, s2, rspec)
+                    if dsr is not None:
+                        dump_cases([dsr, dsr['first']], *dm)
+                        br = [(100, 100, 101, 101), (-100, -100, 100, 100)] + \
+                            _sample(rep.rng, boxes_for(rep.rng, extents(dsr, dsr['geom'][0]), nbox)[7:], 2)
+                        check_read(rep, [dsr], 'single', None, br, *acc)
+                        check_read(rep, [dsr], 'single', dsr['geom'][1], br[:2], *acc)
                 if si % 6 == 1:
                     # ... and a dataset written by Dask's own writer (no spatialpandas metadata) next to it
                     spec3 = {**spec, 'seed': spec['seed'] + 2, 'tag': 'c', 'voffset': 200000, 'writer': 'plain',
@@ -756,8 +819,9 @@ def replay(rep, rp):
                     for k in ('kinds', 'subtypes'):
                         if k in sp:
                             sp[k] = tuple(sp[k])
-                    if sp.get('filtered_from'):
-                        sp['filtered_from'] = fix(sp['filtered_from'])
+                    for k in ('filtered_from', 'renamed_from'):
+                        if sp.get(k):
+                            sp[k] = fix(sp[k])
                     return sp
                 for j, spec in enumerate(specs):
                     spec = fix(spec)
